@@ -68,7 +68,11 @@ class C08Prop(core.Prop):
             "and a follow-up are played; a newly built world plays the follow-up under the same tapes; the model runs it "
             "from the fresh world's dump; wrappers and repeated placement resets: the multi-episode cases of the C13, "
             "C14 and C20 modules, judged by their trace specifications; distinct by (layer, configuration, prefix, "
-            "follow-up); non-trivial = the prefix contains at least one step and is cut before or after a finish")
+            "follow-up); non-trivial = the prefix contains at least one step and is cut before or after a finish; "
+            "layer example: real TeamBattleSim / PredatorPreyResourcesSim / MazeNavigationSim / MultiMazeNavigationSim / "
+            "TrafficCorridorSimulation objects dirtied by a history of direct calls (1-3 episodes), then reset under a "
+            "fresh seed and a follow-up; a newly built object plays the follow-up under the same tapes; both traces "
+            "must be identical and equal to the model's (Model/Examples.lean) run from the FRESH object's dump")
     assumptions = ["the wrapped simulation's own reset forgets (stub with constant episode number; scripted gym env)",
                    "aliasing and object identity are outside the pure model; compared through observable traces only"]
 
@@ -255,6 +259,9 @@ class C08Prop(core.Prop):
             yield self._grid_case(cfg, pops, fops)
 
     def case_from_desc(self, d):
+        if d["layer"] == "example":
+            import p_examples
+            return p_examples.twin_case(d)
         if d["layer"] == "grid":
             return self._grid_case(d["cfg"], d["pops"], d["fops"])
         if d["layer"] == "sub":
@@ -293,9 +300,15 @@ class C08Prop(core.Prop):
                     calls.append(["r"] if rng.random() < 0.25 else ["s", rng.randrange(10)])
                 yield self._gymabs_case(rng.randint(1, 5), calls)
         yield from self._grid_cases(tier, rng)
+        # the packaged example simulations that are modelled: used object versus newly built twin (examples_reset_forgets)
+        import p_examples
+        yield from p_examples.gen_twin_cases(rng, 150 if quick else 3000)
         yield from self._sub_cases(tier, rng)
 
     def interpret(self, reply, case):
+        if case.desc.get("layer") == "example":
+            import p_examples
+            return p_examples.twin_interpret(reply, case)
         if case.desc.get("layer") == "grid":
             import p_c03
             model, ms, is_, pre, diag = reply
@@ -321,6 +334,10 @@ class C08Prop(core.Prop):
         return core.Verdict(wire.enc(model), ms == 1, is_ == 1)
 
     def shrink_candidates(self, desc):
+        if desc["layer"] == "example":
+            import p_examples
+            yield from p_examples.twin_shrink_candidates(desc)
+            return
         if desc["layer"] == "grid":
             for k in range(len(desc["pops"]) - 1, 0, -1):
                 yield dict(desc, pops=desc["pops"][:k] + desc["pops"][k + 1:])
